@@ -569,6 +569,39 @@ class Flattener(object):
         body = _body_without_doc(callee.node)
         if len(body) == 1 and isinstance(body[0], ast.Return) and body[0].value is not None:
             return body[0].value
+        # t1 = e1; t2 = e2; return E  with every temporary bound once and read exactly once, in binding order, by what follows:
+        # the expression E with the temporaries substituted evaluates the same sub-expressions in the same order
+        if len(body) >= 2 and isinstance(body[-1], ast.Return) and body[-1].value is not None and \
+                all(isinstance(b, ast.Assign) and len(b.targets) == 1 and isinstance(b.targets[0], ast.Name) for b in body[:-1]):
+            params = {a.arg for a in callee.node.args.posonlyargs + callee.node.args.args}
+            temps = [b.targets[0].id for b in body[:-1]]
+            if len(set(temps)) != len(temps) or set(temps) & params:
+                return None
+            expr = clone(body[-1].value)
+            for b in reversed(body[:-1]):
+                t = b.targets[0].id
+                uses = [n for n in ast.walk(expr) if isinstance(n, ast.Name) and n.id == t]
+                if len(uses) != 1:
+                    return None
+                # the single use must be the first thing evaluated among the names of the remaining expression that are temporaries
+                expr = _ReplaceNode(uses[0], clone(b.value)).visit(expr)
+            if len(body) > 2:
+                return None      # with several temporaries the order of evaluation would have to be proved: only one is taken
+            # one temporary: its value must be the first sub-expression the result evaluates (a comprehension source, a receiver)
+            first = body[-1].value
+            while True:
+                if isinstance(first, ast.BinOp):
+                    first = first.left
+                elif isinstance(first, ast.Call) and isinstance(first.func, ast.Attribute) and not isinstance(first.func.value, ast.Constant):
+                    first = first.func.value
+                elif isinstance(first, ast.Call) and first.args:
+                    first = first.args[0]
+                elif isinstance(first, (ast.ListComp, ast.GeneratorExp)):
+                    first = first.generators[0].iter
+                else:
+                    break
+            if isinstance(first, ast.Name) and first.id == temps[0]:
+                return expr
         return None
 
     def inline_expr(self, call, cls, stack):
@@ -1425,6 +1458,10 @@ class Flattener(object):
                     src = a.value.id if isinstance(a.value, ast.Name) else None
                     binds.setdefault(a.targets[0].id, []).append((n, src))
                     continue
+                if n.kind == 'stmt' and isinstance(a, ast.AugAssign) and isinstance(a.target, ast.Name):
+                    # x += e binds x (never a copy); it also reads x, which the renaming covers
+                    binds.setdefault(a.target.id, []).append((n, None))
+                    continue
                 stored = set()
                 if n.kind == 'for' and isinstance(a, ast.For):
                     stored = {x.id for x in ast.walk(a.target) if isinstance(x, ast.Name)}
@@ -1587,6 +1624,121 @@ class Flattener(object):
             changed = True
             break          # positions changed: one name per call, the fixpoint loop comes back
         return changed
+
+    def _record_classes(self):
+        """NamedTuple classes of the package: name -> [(field, default or None)]"""
+        cached = getattr(self.prog, '_record_classes', None)
+        if cached is None:
+            cached = {}
+            for rel, m in self.prog.modules.items():
+                for st in m.tree.body:
+                    if isinstance(st, ast.ClassDef) and len(st.bases) == 1 and not st.decorator_list:
+                        b = st.bases[0]
+                        nm = b.attr if isinstance(b, ast.Attribute) else getattr(b, 'id', '')
+                        if nm in ('NamedTuple', '_NamedTuple'):
+                            fields = [(x.target.id, x.value) for x in st.body if isinstance(x, ast.AnnAssign) and isinstance(x.target, ast.Name)]
+                            others = [x for x in st.body if not isinstance(x, (ast.AnnAssign, ast.Pass)) and
+                                      not (isinstance(x, ast.Expr) and isinstance(x.value, ast.Constant))]
+                            if fields and not others:
+                                cached[st.name] = None if st.name in cached else fields
+            cached = {k: v for k, v in cached.items() if v}
+            self.prog._record_classes = cached
+        return cached
+
+    def _records_to_tuples_locally(self, node):
+        """A local only ever bound to constructor calls of one NamedTuple class of the package and only read as `v.field`, `v[i]` or
+        unpacked whole holds a tuple whose items are the fields: the constructor calls become tuple displays (arguments in field
+        order; keyword arguments only when they are names / constants) and `v.field` becomes `v[i]` - `_scalarise_tuples` then
+        replaces the tuple by one local per item.  Local to the variable, so field names need not be unique in the package."""
+        recs = self._record_classes()
+        if not recs:
+            return False
+        params = {a.arg for a in node.args.posonlyargs + node.args.args + node.args.kwonlyargs}
+        parents = {}
+        for n in ast.walk(node):
+            for c in ast.iter_child_nodes(n):
+                parents[c] = n
+        nested = [n for n in ast.walk(node) if isinstance(n, (ast.FunctionDef, ast.Lambda, ast.ClassDef)) and n is not node]
+        captured = {x.id for n in nested for x in ast.walk(n) if isinstance(x, ast.Name)}
+        stores, loads = {}, {}
+        for n in ast.walk(node):
+            if isinstance(n, ast.Name):
+                (stores if isinstance(n.ctx, (ast.Store, ast.Del)) else loads).setdefault(n.id, []).append(n)
+
+        def ctor(e):
+            if not isinstance(e, ast.Call):
+                return None
+            nm = e.func.id if isinstance(e.func, ast.Name) else (e.func.attr if isinstance(e.func, ast.Attribute) else None)
+            if nm not in recs:
+                return None
+            names = [f for f, _ in recs[nm]]
+            if any(isinstance(a, ast.Starred) for a in e.args) or len(e.args) > len(names) or \
+                    any(k.arg is None or k.arg not in names or not isinstance(k.value, (ast.Name, ast.Constant)) for k in e.keywords):
+                return None
+            return nm
+        for v, sts in sorted(stores.items()):
+            if v in params or v in captured or v not in loads:
+                continue
+            cls = None
+            ok = True
+            for st in sts:
+                p = parents.get(st)
+                c = ctor(p.value) if isinstance(p, ast.Assign) and len(p.targets) == 1 and p.targets[0] is st else None
+                if c is None or (cls is not None and c != cls):
+                    ok = False
+                    break
+                cls = c
+            if not ok or cls is None:
+                continue
+            fields = recs[cls]
+            names = [f for f, _ in fields]
+            for ld in loads[v]:
+                p = parents.get(ld)
+                if isinstance(p, ast.Attribute) and p.value is ld and isinstance(p.ctx, ast.Load) and p.attr in names:
+                    continue
+                if isinstance(p, ast.Subscript) and p.value is ld and isinstance(p.slice, ast.Constant) and isinstance(p.slice.value, int):
+                    continue
+                if isinstance(p, ast.Assign) and p.value is ld and len(p.targets) == 1 and isinstance(p.targets[0], (ast.Tuple, ast.List)):
+                    continue
+                ok = False
+                break
+            if not ok:
+                continue
+
+            class R(ast.NodeTransformer):
+                def visit_FunctionDef(self_, n):
+                    return self_.generic_visit(n) if n is node else n
+
+                def visit_Assign(self_, n):
+                    self_.generic_visit(n)
+                    if len(n.targets) == 1 and isinstance(n.targets[0], ast.Name) and n.targets[0].id == v and isinstance(n.value, ast.Call):
+                        vals = list(n.value.args) + [None] * (len(fields) - len(n.value.args))
+                        for k in n.value.keywords:
+                            vals[names.index(k.arg)] = k.value
+                        for i_, (f_, d_) in enumerate(fields):
+                            if vals[i_] is None:
+                                vals[i_] = clone(d_) if d_ is not None else ast.Constant(value=None)
+                        n.value = ast.copy_location(ast.Tuple(elts=vals, ctx=ast.Load()), n.value)
+                    return n
+
+                def visit_Attribute(self_, n):
+                    if isinstance(n.value, ast.Name) and n.value.id == v and isinstance(n.ctx, ast.Load) and n.attr in names:
+                        return ast.copy_location(ast.Subscript(value=n.value, slice=ast.Constant(value=names.index(n.attr)), ctx=ast.Load()), n)
+                    return self_.generic_visit(n)
+            # a missing field without default would have raised TypeError at run time: leave such code alone
+            bad = False
+            for st in sts:
+                call = parents[st].value
+                given = len(call.args) + len(call.keywords)
+                if given < len([1 for _f, d_ in fields if d_ is None]):
+                    bad = True
+            if bad:
+                continue
+            R().visit(node)
+            ast.fix_missing_locations(node)
+            self.desugared += 1
+            return True
+        return False
 
     def _scalarise_dicts(self, node):
         """A local name bound once to a dict display with literal string keys and used only as `d['key']` (read or store) is a bundle
@@ -2651,8 +2803,8 @@ class Flattener(object):
             node.body = self._forward_generator_temps(node.body)
             node.body = self.lower_comprehensions(node.body)
             node.body = self.rewrite_block(node.body, self.fi.cls, [self.fi.key])
-            for _k in range(6):
-                if not (self._scalarise_tuples(node) or self._scalarise_dicts(node)):
+            for _k in range(8):
+                if not (self._records_to_tuples_locally(node) or self._scalarise_tuples(node) or self._scalarise_dicts(node)):
                     break
             self._fold_sequence_markers(node)
             self._fold_sentinel_tests(node)
